@@ -1496,3 +1496,88 @@ Proof.
   destruct (refine_main S HS (length (s :: p')) (s :: p') (le_n _) ltac:(discriminate)) as [HM _].
   apply (HM true (encode_msg m) 0 LSingular 0 root m [] 0 Hp (or_introl eq_refl) Hwf (msg_entry_root _) Hlen).
 Qed.
+
+(* the same for a message embedded at any base offset, followed by any tail (a non-root Value: length-prefixed) *)
+Theorem gbp_nested_refines_plookup S root m p pre tail :
+  gbp_domain S root m p = true ->
+  plen (pre ++ (varint_enc (plen (encode_msg m)) ++ encode_msg m) ++ tail) < 2 ^ 63 ->
+  refines (plookup_root S root m p)
+          (gbp_loop all_fixes S (pre ++ (varint_enc (plen (encode_msg m)) ++ encode_msg m) ++ tail) p (plen pre) false
+                    LSingular (TMsg root) 0).
+Proof.
+  unfold gbp_domain. intros H Hlen.
+  apply andb_true_iff in H as [H Hne]. apply andb_true_iff in H as [H Hp]. apply andb_true_iff in H as [H _].
+  apply andb_true_iff in H as [HS Hwf]. change (2 ^ 63) with 9223372036854775808 in Hlen.
+  destruct p as [|s p']; [discriminate|]. unfold plookup_root.
+  destruct (refine_main S HS (length (s :: p')) (s :: p') (le_n _) ltac:(discriminate)) as [HM _].
+  apply (HM false _ (plen pre) LSingular 0 root m (pre ++ varint_enc (plen (encode_msg m))) 0 Hp (or_introl eq_refl) Hwf); [|exact Hlen].
+  apply msg_entry_nested. exact Hlen.
+Qed.
+
+(* ------------------------------------------------------------------ the found element is well-formed, its span decodes *)
+Lemma plookup_wf S : schema_okb S = true -> forall p lbl t num v l' t' n' v',
+  wf_fld S lbl t v = true -> ((forall fs, v <> VMsg fs) -> 1 <= num <= MAX_FIELD_NUMBER) ->
+  plookup S lbl t num v p = LFound l' t' n' v' ->
+  wf_fld S l' t' v' = true /\ (p <> [] -> 1 <= n' <= MAX_FIELD_NUMBER).
+Proof.
+  intros HS p. induction p as [|s p IH]; intros lbl t num v l' t' n' v' Hwf Hnum H.
+  - cbn in H. inversion H; subst. split; [exact Hwf|intros C; contradiction].
+  - assert (Hgoal : forall lbl2 t2 num2 v2, wf_fld S lbl2 t2 v2 = true -> 1 <= num2 <= MAX_FIELD_NUMBER ->
+              plookup S lbl2 t2 num2 v2 p = LFound l' t' n' v' ->
+              wf_fld S l' t' v' = true /\ (s :: p <> [] -> 1 <= n' <= MAX_FIELD_NUMBER)).
+    { intros lbl2 t2 num2 v2 Hw2 Hn2 H2. destruct (IH _ _ _ _ _ _ _ _ Hw2 (fun _ => Hn2) H2) as [A B]. split; [exact A|].
+      intros _. destruct p as [|s' p']; [cbn in H2; inversion H2; subst; exact Hn2|apply B; discriminate]. }
+    cbn [plookup] in H. destruct lbl as [|q0|kk]; destruct v as [k x|k b|fs|q vs|kvs]; try discriminate.
+    + destruct (negb (is_field_step s)); [discriminate|]. destruct t as [|name]; [discriminate|].
+      destruct (wf_msg_facts _ _ _ Hwf) as [md [Hfind [_ [_ Hfs]]]]. rewrite Hfind in H.
+      destruct (step_field md s) as [fd|] eqn:Hsf; [|discriminate].
+      destruct (step_field_facts _ _ _ (schema_md _ _ _ HS Hfind) Hsf) as [Hff _].
+      destruct (assoc_z (fd_num fd) fs) as [x|] eqn:Ha; [|discriminate].
+      destruct (assoc_z_split _ _ _ Ha) as [fs1 [fs2 [E _]]]. subst fs. destruct (fields_wf_app _ _ _ _ Hfs) as [_ H2].
+      inversion H2 as [|? ? [fd' [Hfd' [Hr Hv]]] _]; subst. cbn [fst snd] in *. rewrite Hff in Hfd'. inversion Hfd'; subst fd'.
+      apply (Hgoal _ _ _ _ Hv Hr H).
+    + destruct s as [| |i| |]; try discriminate. destruct (i <? 0); [discriminate|].
+      destruct (nth_error vs (Z.to_nat i)) as [x|] eqn:En; [|discriminate].
+      destruct (wf_list_facts _ _ _ _ _ num Hwf) as [_ [_ [Hall _]]]. rewrite Forall_forall in Hall.
+      apply (Hgoal _ _ _ _ (Hall x (nth_error_In _ _ En)) (Hnum ltac:(intros; discriminate)) H).
+    + destruct (wf_map_facts _ _ _ _ num Hwf) as [_ [_ Hall]]. rewrite Forall_forall in Hall.
+      destruct s as [| | |k|i]; try discriminate.
+      * destruct (kk =? 9); [|discriminate]. rewrite assoc_key_find in H.
+        destruct (find (fun kx => match_str k (fst kx)) kvs) as [kx|] eqn:Ef; [|discriminate]. cbn [option_map] in H.
+        apply find_some in Ef. destruct Ef as [Hin _]. destruct (Hall kx Hin) as [_ [Hx _]].
+        apply (Hgoal _ _ _ _ Hx (Hnum ltac:(intros; discriminate)) H).
+      * destruct (kk =? 9); [discriminate|].
+        destruct (find (fun kx => key_matches i (fst kx)) kvs) as [kx|] eqn:Ef; [|discriminate].
+        apply find_some in Ef. destruct Ef as [Hin _]. destruct (Hall kx Hin) as [_ [Hx _]].
+        apply (Hgoal _ _ _ _ Hx (Hnum ltac:(intros; discriminate)) H).
+Qed.
+
+(* the span getByPath returns is the encoding of the element, and it decodes back to the element with the
+   proved decoder: the records of the field (for a singular element: its tag followed by the span) are a
+   well-formed wire tree that wdec reads back and dec_field turns into the element *)
+Theorem found_span_decodes S root m p lbl t num v fd fuel :
+  gbp_domain S root m p = true -> plookup_root S root m p = LFound lbl t num v ->
+  fd_label fd = lbl -> fd_type fd = t -> (depth v <= fuel)%nat ->
+  gbp all_fixes S root (encode_msg m) p = GFoundA (node_type lbl t) (node_raw lbl num v) (size_of v) /\
+  wenc (wfld num v) = match lbl with LSingular => tagb num (elem_wt t) ++ node_raw lbl num v | _ => node_raw lbl num v end /\
+  wdec (wenc (wfld num v)) = Some (wfld num v) /\
+  dec_field (decode_msg S fuel) fd (map snd (wfld num v)) = Some (Some v).
+Proof.
+  intros Hdom Hl Hfl Hft Hd. pose proof (gbp_refines_plookup S root m p Hdom) as Hr.
+  unfold refines in Hr. rewrite Hl in Hr. cbn [expected_gout In] in Hr. destruct Hr as [Hr|[]].
+  split; [symmetry; exact Hr|].
+  unfold gbp_domain in Hdom.
+  apply andb_true_iff in Hdom as [H Hne]. apply andb_true_iff in H as [H _]. apply andb_true_iff in H as [H _].
+  apply andb_true_iff in H as [HS Hwf].
+  destruct (plookup_wf S HS p LSingular (TMsg root) 0 (VMsg m) lbl t num v Hwf
+              ltac:(intros Hc; exfalso; apply (Hc m); reflexivity) Hl) as [Hwv Hnum].
+  assert (Hn : 1 <= num <= MAX_FIELD_NUMBER) by (apply Hnum; destruct p; [discriminate|discriminate]).
+  split.
+  - destruct lbl; [|reflexivity|reflexivity]. cbn [node_raw].
+    destruct (wf_singular_facts _ _ _ Hwv) as [_ [Hwt [_ Ee]]].
+    rewrite (wfld_single _ _ _ num Hwv). cbn [wenc flat_map]. rewrite app_nil_r, wenc_field_tagb. cbn [fst snd].
+    rewrite Hwt, Ee. reflexivity.
+  - split; [apply wdec_wenc; apply (wfld_wire _ _ _ _ num Hwv Hn)|].
+    destruct (wfld_fvals _ _ _ _ num Hwv) as [E _]. rewrite E, map_map. cbn [snd]. rewrite map_id.
+    apply field_rt_all; [rewrite Hfl, Hft; exact Hwv|exact Hd].
+Qed.
